@@ -104,7 +104,7 @@ func check(c Case) error {
 		}
 		if st.Timeout {
 			h.Discard("timeout")
-			continue
+			return nil
 		}
 		nonASCII, invalid := false, false
 		for _, b := range in {
